@@ -713,16 +713,28 @@ pub fn run_c16(out: &mut Out, tier: &str, seed: u64) {
                     }
                 }
             }
-            // drop everything in a random order; survivors stay readable
+            // drop everything in a random order; survivors read exactly as they did while everything was alive, and
+            // nothing they hold reads as freed memory (the harness allocator overwrites freed blocks with 0xDD; seven
+            // of those bytes in a row cannot occur in a decoded string)
+            const FREED: &str = "dddddddddddddddd";
+            let snap: Vec<Option<String>> = h.live.iter().map(|v| v.as_ref().map(sorted_dump)).collect();
+            for (j, s) in snap.iter().enumerate() {
+                if s.as_deref().is_some_and(|s| s.contains(FREED)) && verdict == "ok" {
+                    verdict = format!("value {j} reads freed memory at the end of the history ({})", h.ops.last().cloned().unwrap_or_default());
+                }
+            }
             let mut order: Vec<usize> = (0..h.live.len()).collect();
             for i in (1..order.len()).rev() {
                 order.swap(i, hrng.below(i + 1));
             }
-            for (k, i) in order.iter().enumerate() {
+            for i in order.iter() {
                 h.live[*i] = None;
-                if k % 3 == 0 {
-                    for v in h.live.iter().flatten() {
-                        let _ = sorted_dump(v);
+                for (j, v) in h.live.iter().enumerate() {
+                    if let Some(v) = v {
+                        let d = sorted_dump(v);
+                        if Some(&d) != snap[j].as_ref() && verdict == "ok" {
+                            verdict = format!("after dropping value {i}, value {j} reads differently: {} instead of {}", &d[..d.len().min(120)], snap[j].as_deref().map(|s| &s[..s.len().min(120)]).unwrap_or(""));
+                        }
                     }
                 }
             }
